@@ -105,7 +105,12 @@ def one_case(rec, seedt, nmax):
         res_a = SpectrumAnalyzer(x, fs, **kw).compute()
         rec.count("c09_solo_pairs")
         mx = float(np.max(np.abs(res.Gxx))) if res.nf else 0.0
-        e = resultcheck.relerr(res_a.Gxx, res.Gxx, floor=1e-13 * max(mx, 1e-300))
+        # rounding-noise floor relative to the RAW record: a constant / polynomial record that the
+        # detrending removes leaves 1e-32-level noise in every bin; it carries no estimate
+        with np.errstate(all="ignore"):
+            raw = 2.0 * float(np.max(np.abs(x))) ** 2 * float(np.max(
+                np.where(res.S2 > 0, res.S12 / np.where(res.S2 > 0, res.S2, 1), 0))) / fs
+        e = resultcheck.relerr(res_a.Gxx, res.Gxx, floor=max(1e-13 * max(mx, 1e-300), 1e-24 * raw))
         m = float(np.max(e)) if e.size else 0.0
         rec.ratio("solo_vs_pair_err_over_1e-10", m / 1e-10)
         if not (m <= 1e-10):
